@@ -205,6 +205,8 @@ func registerC01() {
 				}
 			}
 			var cs []*Case
+			nsyn := 0
+			synSkipped := map[string]int{}
 			skipped := map[string]int{}
 			for _, p := range pickFiles {
 				src, err := os.ReadFile(p)
@@ -225,8 +227,21 @@ func registerC01() {
 				}
 				c01Sources[id] = src
 				cs = append(cs, c)
+				// three-way tie: the same file as a GoSyn term built by the Lean builder
+				if sc, why := ConvertFileSyn(p, src, id+"-syn"); sc != nil {
+					cs = append(cs, sc)
+					nsyn++
+				} else {
+					k := why
+					if len(k) > 60 {
+						k = k[:60]
+					}
+					synSkipped[k]++
+				}
 			}
-			cx.Extra["files_converted"] = len(cs)
+			cx.Extra["files_as_gosyn_terms"] = nsyn
+			cx.Extra["files_outside_gosyn"] = synSkipped
+			cx.Extra["files_converted"] = len(cs) - nsyn
 			cx.Extra["files_not_expressible"] = skipped
 			// generated programs (valid by construction most of the time): their source is the
 			// formatted output of a first render, re-converted
